@@ -21,7 +21,7 @@ for pid in props:
         "engine": "lean4-proof+correspondence",
         "level_claimed": {"category": "proof",
                           "text": m.get("level_text", "Lean 4 theorems over an executable model of the anchored code, tied to /repo by a correspondence check and/or a regenerated translation on every run."),
-                          "design_ref": m.get("design_ref", "DESIGN.md §4")},
+                          "design_ref": f"DESIGN.md §4 {pid}"},
         "level_note": m.get("level_note", "; ".join(c.get("trusted_base", []))),
         "technique": m.get("technique", "Lean 4 machine-checked proof over a model + differential correspondence with the Go code"),
     })
